@@ -38,6 +38,7 @@ CONSTANTS
   Interval,     \* ticks a poller sleeps (INTERVAL = 0.01 s -> 11 ticks of 1/1024 s)
   Deltas,       \* clock advances, ticks (> 0); equal readings = no Tick between two actions
   MaxChanges,   \* bound on the number of limit changes in a behaviour
+  MaxCancels,   \* bound on the number of cancelled take_tokens() calls in a behaviour
   Timely,       \* TRUE: the loop runs a due poll before the clock moves on (needed for bounded wait)
   \* ---- named deviations: the position that mirrors the code / the repaired position ----
   StaleFullBucket,   \* TRUE (code): refill() on a full bucket returns early WITHOUT moving
@@ -50,6 +51,11 @@ CONSTANTS
   Fifo,              \* FALSE (code): every waiter polls on its own; whoever polls first after
                      \*   the bucket reached Min wins, a waiter can be bypassed for ever
                      \* TRUE (repair): waiters of one limiter are served first-come first-served
+  SkipCancelled,     \* TRUE (asyncio.Lock): a waiter cancelled while queued leaves the queue, the turn
+                     \*   goes to the next live waiter
+                     \* FALSE (a hand-rolled queue that pops one future and wakes it only if it is not
+                     \*   done): the turn handed to a cancelled waiter is lost - nobody polls, everybody
+                     \*   behind it and every later caller of that limiter waits for ever
   StallBound,   \* ticks: some waiter of a limiter => that limiter grants within StallBound (Timely)
   BypassBound,  \* grants of a limiter that may overtake one waiting request
   Slack         \* bytes of resolution of WindowBound (0 = exact; Min = one chunk)
@@ -128,9 +134,11 @@ VARIABLES
   bypass,   \* c -> grants of c's limiter to others since c started waiting (capped)
   acct,     \* accounting of granted bytes, see above
   changes,  \* limit changes so far
+  cancels,  \* cancelled calls so far
+  stuck,    \* limiters (indices) whose turn was handed to a cancelled waiter and lost
   last      \* what the last step showed at the API: [ev, c, n, g] (for action properties / traces)
 
-vars == <<gens, pc, on, rem, queue, since, bypass, acct, changes, last>>
+vars == <<gens, pc, on, rem, queue, since, bypass, acct, changes, cancels, stuck, last>>
 
 CurIdx == Len(gens)
 Cur == gens[CurIdx]
@@ -147,11 +155,39 @@ Init ==
   /\ bypass = [c \in Conns |-> 0]
   /\ acct = NoAcct
   /\ changes = 0
+  /\ cancels = 0
+  /\ stuck = {}
   /\ last = [ev |-> "init", c |-> 0, n |-> 0, g |-> 1]
 
 \* replaced limiter objects nobody waits on are garbage: normalise them
 Collect(gs, onf) ==
   [i \in 1..Len(gs) |-> IF i < Len(gs) /\ ~\E c \in Conns : onf[c] = i THEN Unl ELSE gs[i]]
+
+\* queue holds connection ids (> 0, waiting for their turn on limiter on[x]) and, only with
+\* ~SkipCancelled, dead entries -g left behind by a waiter of limiter g that was cancelled
+OfLimiter(g, x) == IF x > 0 THEN on[x] = g ELSE x = -g
+RemoveFirst(sq, v) ==
+  LET i == CHOOSE i \in 1..Len(sq) : sq[i] = v /\ \A j \in 1..(i - 1) : sq[j] # v
+  IN SubSeq(sq, 1, i - 1) \o SubSeq(sq, i + 1, Len(sq))
+
+\* c stops polling limiter g (granted, or cancelled): the turn goes to the head of g's queue; it
+\* runs at the same clock reading
+HandOver(c, g) ==
+  LET nextq == SelectSeq(queue, LAMBDA x : OfLimiter(g, x)) IN
+  IF Fifo /\ nextq # <<>>
+  THEN IF Head(nextq) > 0
+       THEN /\ pc' = [pc EXCEPT ![c] = "idle", ![Head(nextq)] = "sleeping"]
+            /\ rem' = [rem EXCEPT ![c] = 0, ![Head(nextq)] = 0]
+            /\ queue' = RemoveFirst(queue, Head(nextq))
+            /\ UNCHANGED stuck
+       ELSE \* handed to a cancelled waiter: nobody is woken, the polling role stays taken
+            /\ pc' = [pc EXCEPT ![c] = "idle"]
+            /\ rem' = [rem EXCEPT ![c] = 0]
+            /\ queue' = RemoveFirst(queue, Head(nextq))
+            /\ stuck' = stuck \cup {g}
+  ELSE /\ pc' = [pc EXCEPT ![c] = "idle"]
+       /\ rem' = [rem EXCEPT ![c] = 0]
+       /\ UNCHANGED <<queue, stuck>>
 
 \* c (not waiting, or due) runs refill + the test in take_tokens on limiter g:
 \* rate_limiter.py:98-105.  Either granted (returns Min) or asleep for Interval.
@@ -164,7 +200,6 @@ Attempt(c, g) ==
   THEN \* granted
        LET onN == [on EXCEPT ![c] = 0]
            others == WaitersOn(g) \ {c}
-           nextq == SelectSeq(queue, LAMBDA x : on[x] = g)
        IN
        /\ gens' = Collect([gens EXCEPT ![g] = [r EXCEPT !.b = r.b - Min]], onN)
        /\ on' = onN
@@ -174,14 +209,7 @@ Attempt(c, g) ==
                                      ELSE IF x \in others THEN MinOf(bypass[x] + 1, BypassBound + 1)
                                      ELSE bypass[x]]
        /\ last' = [ev |-> "grant", c |-> c, n |-> Min, g |-> g]
-       /\ IF Fifo /\ nextq # <<>>
-            THEN \* the lock is handed to the first queued connection; it runs at the same clock reading
-                 /\ pc' = [pc EXCEPT ![c] = "idle", ![Head(nextq)] = "sleeping"]
-                 /\ rem' = [rem EXCEPT ![c] = 0, ![Head(nextq)] = 0]
-                 /\ queue' = SelectSeq(queue, LAMBDA x : x # Head(nextq))
-            ELSE /\ pc' = [pc EXCEPT ![c] = "idle"]
-                 /\ rem' = [rem EXCEPT ![c] = 0]
-                 /\ UNCHANGED queue
+       /\ HandOver(c, g)
   ELSE \* bucket empty: sleep INTERVAL and poll again
        /\ gens' = [gens EXCEPT ![g] = r]
        /\ pc' = [pc EXCEPT ![c] = "sleeping"]
@@ -190,30 +218,30 @@ Attempt(c, g) ==
        /\ since' = IF Waiting(c) THEN since ELSE [since EXCEPT ![c] = 0]
        /\ bypass' = IF Waiting(c) THEN bypass ELSE [bypass EXCEPT ![c] = 0]
        /\ last' = [ev |-> "sleep", c |-> c, n |-> 0, g |-> g]
-       /\ UNCHANGED <<queue, acct>>
+       /\ UNCHANGED <<queue, acct, stuck>>
 
 \* connection.py:716 / :743  `await self.<dir>_rate_limiter.take_tokens()`
 Request(c) ==
   /\ pc[c] = "idle"
-  /\ UNCHANGED changes
+  /\ UNCHANGED <<changes, cancels>>
   /\ IF Cur.k = 0
        THEN \* UnlimitedRateLimiter.take_tokens: returns at once
             /\ last' = [ev |-> "grant", c |-> c, n |-> UMin, g |-> CurIdx]
-            /\ UNCHANGED <<gens, pc, on, rem, queue, since, bypass, acct>>
-       ELSE IF Fifo /\ WaitersOn(CurIdx) # {}
+            /\ UNCHANGED <<gens, pc, on, rem, queue, since, bypass, acct, stuck>>
+       ELSE IF Fifo /\ (WaitersOn(CurIdx) # {} \/ CurIdx \in stuck)
             THEN /\ pc' = [pc EXCEPT ![c] = "queued"]
                  /\ on' = [on EXCEPT ![c] = CurIdx]
                  /\ queue' = Append(queue, c)
                  /\ since' = [since EXCEPT ![c] = 0]
                  /\ bypass' = [bypass EXCEPT ![c] = 0]
                  /\ last' = [ev |-> "queued", c |-> c, n |-> 0, g |-> CurIdx]
-                 /\ UNCHANGED <<gens, rem, acct>>
+                 /\ UNCHANGED <<gens, rem, acct, stuck>>
             ELSE Attempt(c, CurIdx)
 
 \* the sleep of c is over: next iteration of the loop in take_tokens
 Poll(c) ==
   /\ pc[c] = "sleeping" /\ rem[c] = 0
-  /\ UNCHANGED changes
+  /\ UNCHANGED <<changes, cancels>>
   /\ Attempt(c, on[c])
 
 \* the clock moves on
@@ -225,7 +253,7 @@ Tick(d) ==
   /\ since' = [c \in Conns |-> IF Waiting(c) /\ Timely THEN MinOf(since[c] + d, StallBound + 1) ELSE since[c]]
   /\ acct' = AcctDrain(acct, Cur.k, Cur.k * d)
   /\ last' = [ev |-> "tick", c |-> 0, n |-> d, g |-> CurIdx]
-  /\ UNCHANGED <<pc, on, queue, bypass, changes>>
+  /\ UNCHANGED <<pc, on, queue, bypass, changes, cancels, stuck>>
 
 \* network.py:349-361: new limiter, copy_tokens, handed to the connections
 SetLimit(k) ==
@@ -236,10 +264,32 @@ SetLimit(k) ==
   \* with the repair the replaced object's accrual is settled (other.refill()) before the copy
   /\ LET oldR == IF StaleRateOnChange \/ Cur.k = 0 THEN Cur ELSE Refill(Cur)
      IN gens' = Collect(Append([gens EXCEPT ![CurIdx] = oldR], NewLimiter(k, Cur)), on)
-  /\ UNCHANGED <<pc, on, rem, queue, since, bypass>>
+  /\ UNCHANGED <<pc, on, rem, queue, since, bypass, cancels, stuck>>
+
+\* the task that is inside take_tokens() for connection c is cancelled (transfer aborted, paused or
+\* removed, connection closed): CancelledError at `await asyncio.sleep` or while waiting for its turn
+Cancel(c) ==
+  /\ Waiting(c)
+  /\ cancels < MaxCancels
+  /\ cancels' = cancels + 1
+  /\ LET g == on[c]
+         onN == [on EXCEPT ![c] = 0]
+     IN /\ on' = onN
+        /\ gens' = Collect(gens, onN)
+        /\ last' = [ev |-> "cancel", c |-> c, n |-> 0, g |-> g]
+        /\ IF pc[c] = "queued"
+             THEN /\ queue' = IF SkipCancelled THEN SelectSeq(queue, LAMBDA x : x # c)
+                              ELSE [i \in 1..Len(queue) |-> IF queue[i] = c THEN -g ELSE queue[i]]
+                  /\ pc' = [pc EXCEPT ![c] = "idle"]
+                  /\ rem' = [rem EXCEPT ![c] = 0]
+                  /\ UNCHANGED stuck
+             ELSE HandOver(c, g)       \* `async with` / `finally` releases the turn
+  /\ since' = [since EXCEPT ![c] = 0]
+  /\ bypass' = [bypass EXCEPT ![c] = 0]
+  /\ UNCHANGED <<acct, changes>>
 
 Next ==
-  \/ \E c \in Conns : Request(c) \/ Poll(c)
+  \/ \E c \in Conns : Request(c) \/ Poll(c) \/ Cancel(c)
   \/ \E d \in Deltas : Tick(d)
   \/ \E k \in Limits : SetLimit(k)
 
@@ -274,7 +324,7 @@ UnlimitedNotThrottled ==
 GrantsPositive == [][last'.ev = "grant" => last'.n > 0]_vars
 
 \* `last` only reports the step that was taken; it is not part of the fingerprint
-View == <<gens, pc, on, rem, queue, since, bypass, acct, changes>>
+View == <<gens, pc, on, rem, queue, since, bypass, acct, changes, cancels, stuck>>
 
 \* Never stalling, as a step bound in virtual time (Timely loop).
 \* Derivation of the bound in real units (TPS = 1024, Min = 128, Interval = 11, k >= 1 KiB/s):
@@ -293,5 +343,5 @@ BoundedBypass == \A c \in Conns : bypass[c] <= BypassBound
 
 \* The same as liveness under fairness: a waiting transfer is always eventually granted.
 EventuallyGranted == \A c \in Conns : Waiting(c) ~> ~Waiting(c)
-SomebodyGranted == (\E c \in Conns : Waiting(c)) ~> (last.ev = "grant")
+SomebodyGranted == (\E c \in Conns : Waiting(c)) ~> (last.ev = "grant" \/ \A c \in Conns : ~Waiting(c))
 =============================================================================
